@@ -211,7 +211,12 @@ def _lit(k):
 
 def mixed_program(ta, K, W):
     kt = _lit(K)
-    L = [f'const int KC = {kt};', 'byte gY = 0;', f'empty @is_you({ta} a) {{', 'byte t = 0; byte[] ts = [0, 0];']
+    L = [f'const int KC = {kt};', 'byte gY = 0;', 'byte wd(int n) { return (n % 100 + 101) is byte; }',
+         'int deep(int d) { int p = 0 - 1; int q = 0 - 2; int[] r = [0 - 3, 0 - 4]; if (d > 0) { return deep(d - 1) + p + q + r[1]; } return p; }',
+         'empty h2w(int u, int v) { write(u); write(\',\'); write(v); }',
+         f'empty @is_you({ta} a) {{', 'byte t = 0; byte[] ts = [0, 0];',
+         # a byte result widened to a word in a slot that deeper activations have filled with ones before
+         "writeln(deep(3)); int w1 = wd(a); write(w1); write(' '); h2w(wd(a), wd(a + 1)); int tq[wd(a) % 4 + 1]; write(tq.length); writeln(deep(2) + wd(a));"]
     for k in (kt, 'KC', f'({kt})'):
         for op in ('+', '-', '*'):
             L.append(f"write(a {op} {k}); write(' '); write({k} {op} a); write(' ');")
